@@ -841,7 +841,7 @@ class Evaluator:
         if f in self.cfg.recurse_to or sf in self.cfg.recurse_to:
             return [(self.emit(st, ("recurse", sf.split("::")[-1], tuple(vs[1:]))), ("lit", "()"))]
         for t in self.cfg.effect_calls:
-            if sf.endswith(t):
+            if sf == t or sf.endswith("::" + t):
                 st2 = self.emit(st, ("effect", t.split("::")[-1], tuple(vs)))
                 r = n.get("r") if n.get("k") == "MCall" else None
                 while isinstance(r, dict) and r.get("k") in ("AddrOf", "Paren"):
